@@ -108,7 +108,7 @@ package markdown
 //@   loop#2 decreases len(mtab(mt).rows) - rangeindex
 //@   loop#3 invariant -1 <= rangeindex && rangeindex < len(cells) && len(cells) <= columnCount && 0 <= n && n < len(mtab(mt).rows) && cells === mtab(mt).rows[n].cells && !mtab(mt).rows[n].isSeparator && tbl(mt.Table) && alignOK(mtab(mt)) && !Wfailed && Wn == old(Wn) && mdLineN == old(mdLineN) && mdLinePipes === old(mdLinePipes) && len(widths) == columnCount && columnCount == mtab(mt).nColumns && columnCount >= 1 && mtab(mt).headerRow != nil && headers === mtab(mt).headerRow.cells && len(headers) <= columnCount
 //@   loop#3 decreases len(cells) - rangeindex
-//@   loop#4 invariant 0 <= i && i <= columnCount && len(controlRowCells) == i && fresh(controlRowCells) && cap(controlRowCells) == columnCount && len(alignments) == columnCount && mdCellsFresh(controlRowCells) && tbl(mt.Table) && alignOK(mtab(mt)) && !Wfailed && Wn == old(Wn) && mdLineN == old(mdLineN) && mdLinePipes === old(mdLinePipes) && len(widths) == columnCount && columnCount == mtab(mt).nColumns && columnCount >= 1 && mtab(mt).headerRow != nil && headers === mtab(mt).headerRow.cells && len(headers) <= columnCount
+//@   loop#4 invariant 0 <= i && i <= columnCount && len(controlRowCells) == i && fresh(controlRowCells) && len(alignments) == columnCount && mdCellsFresh(controlRowCells) && tbl(mt.Table) && alignOK(mtab(mt)) && !Wfailed && Wn == old(Wn) && mdLineN == old(mdLineN) && mdLinePipes === old(mdLinePipes) && len(widths) == columnCount && columnCount == mtab(mt).nColumns && columnCount >= 1 && mtab(mt).headerRow != nil && headers === mtab(mt).headerRow.cells && len(headers) <= columnCount
 //@   loop#4 invariant defaultAlignRaw == alignOf(mtab(mt), 0)
 //@   loop#4 invariant [alignments-so-far] forall k int :: {alignments[k]} 0 <= k && k < i ==> alignments[k] == effAlign(mtab(mt), k)
 //@   loop#4 invariant forall k int :: {alignments[k]} i <= k && k < columnCount ==> alignments[k] == nil
